@@ -8,6 +8,7 @@ import (
 	"context"
 	"encoding/json"
 	"fmt"
+	"sort"
 	"strings"
 
 	pipeline "github.com/buildkite/go-pipeline"
@@ -390,6 +391,23 @@ func runC01(c *ctx) error {
 				desc["signed_fields"] = fmt.Sprint(sig.SignedFields)
 				if verr == nil {
 					c.res.Fail(core.OracleFailure{What: "a genuine signature that does not cover the mandatory field " + dropped + " verifies", Input: desc, Got: "ok", Want: "err"})
+				}
+				// ...also when the field list is padded: naming a field twice does not change the payload (values are keyed
+				// by name) and does not make up for the one that is missing
+				for _, dup := range sig.SignedFields {
+					padded := cloneSig(sig)
+					padded.SignedFields = append(append([]string{}, sig.SignedFields...), dup)
+					sort.Strings(padded.SignedFields)
+					var perr error
+					pp, pmsg := guard(func() {
+						perr = signature.Verify(context.Background(), padded, k.verif, &signature.CommandStepWithInvariants{CommandStep: *step, RepositoryURL: repo + "-changed"}, signature.WithEnv(penv))
+					})
+					c.res.OracleChecks++
+					if pp {
+						c.res.Fail(core.OracleFailure{What: "Verify panics on a padded field list", Input: desc, Got: pmsg})
+					} else if perr == nil {
+						c.res.Fail(core.OracleFailure{What: "a genuine signature that does not cover the mandatory field " + dropped + " verifies once its field list names another field twice", Input: map[string]any{"key": k.kind, "signed_fields": fmt.Sprint(padded.SignedFields), "field not signed": dropped}, Got: "ok", Want: "err"})
+					}
 				}
 				c.res.Case(fmt.Sprintf("reduced-field-list:%d:%s:%v", ki, dropped, envNamedLikeField), true)
 			}
